@@ -248,6 +248,11 @@ class Substituter(pysmt.walkers.IdentityDagWalker):
         interpretations = kwargs['interpretations']
         if f in interpretations:
             res = interpretations[f].interpret(self.env, args)
+            if not res.get_free_variables().isdisjoint(interpretations):
+                # The body of the interpretation applies other
+                # interpreted functions
+                res = self.__class__(self.env).substitute(
+                    res, interpretations=interpretations)
         else:
             res = pysmt.walkers.IdentityDagWalker.super(self, formula,
                                                         args=args, **kwargs)
